@@ -280,12 +280,34 @@ func (kt *kindTable) checkUnmarshalTypes(r *Report) {
 // (the arms of `switch x := v.(type)`), with the assertion instruction.
 func typeSwitchCases(f *ssa.Function, v ssa.Value) map[string]*ssa.TypeAssert {
 	out := map[string]*ssa.TypeAssert{}
+	typeSwitchCasesInto(f, v, out, 0)
+	return out
+}
+
+// typeSwitchCasesInto also follows the value into an unexported function of
+// the package it is handed to unchanged (a switch continued in a helper,
+// typically from the default arm).
+func typeSwitchCasesInto(f *ssa.Function, v ssa.Value, out map[string]*ssa.TypeAssert, depth int) {
 	eachInstr(f, func(ins ssa.Instruction) {
-		if ta, ok := ins.(*ssa.TypeAssert); ok && ta.CommaOk && ta.X == v {
-			out[fmtTypeString(ta.AssertedType)] = ta
+		switch x := ins.(type) {
+		case *ssa.TypeAssert:
+			if x.CommaOk && x.X == v {
+				if _, dup := out[fmtTypeString(x.AssertedType)]; !dup {
+					out[fmtTypeString(x.AssertedType)] = x
+				}
+			}
+		case *ssa.Call:
+			g := x.Common().StaticCallee()
+			if g == nil || g.Blocks == nil || depth >= 2 || g == f || g.Pkg != f.Pkg || g.Name() == "" || g.Name()[0] < 'a' || g.Name()[0] > 'z' || x.Common().IsInvoke() {
+				return
+			}
+			for i, a := range x.Common().Args {
+				if a == v && i < len(g.Params) {
+					typeSwitchCasesInto(g, g.Params[i], out, depth+1)
+				}
+			}
 		}
 	})
-	return out
 }
 
 // checkSwitchCoverage: the type switch on value v in f has an arm for each
